@@ -107,3 +107,112 @@ pub fn resume(task_id: usize) -> bool {
     r.resumed_total += 1;
     r.step_finishes
 }
+
+/// The task table of an execution, for solver back ends: every task is its own heap object and is
+/// reached through a match on the (usually constant) task id, instead of through pointer arithmetic
+/// on one large buffer. Same surface as the `Vec<Task>`/`SmallVec` it stands in for (only what
+/// `execution.rs` uses). At most `TaskTable::CAPACITY` tasks.
+#[derive(Debug)]
+pub struct TaskTable {
+    slots: [Option<Box<crate::runtime::task::Task>>; TaskTable::CAPACITY],
+    len: usize,
+}
+
+impl Default for TaskTable {
+    fn default() -> Self {
+        Self::new()
+    }
+}
+
+impl TaskTable {
+    pub const CAPACITY: usize = 4;
+
+    pub fn new() -> Self {
+        Self {
+            slots: [None, None, None, None],
+            len: 0,
+        }
+    }
+
+    pub fn len(&self) -> usize {
+        self.len
+    }
+
+    pub fn is_empty(&self) -> bool {
+        self.len == 0
+    }
+
+    pub fn push(&mut self, task: crate::runtime::task::Task) {
+        assert!(self.len < Self::CAPACITY, "verif-hooks: task table is limited to 4 tasks");
+        let b = Some(Box::new(task));
+        match self.len {
+            0 => self.slots[0] = b,
+            1 => self.slots[1] = b,
+            2 => self.slots[2] = b,
+            _ => self.slots[3] = b,
+        }
+        self.len += 1;
+    }
+
+    pub fn get(&self, i: usize) -> Option<&crate::runtime::task::Task> {
+        if i >= self.len {
+            return None;
+        }
+        match i {
+            0 => self.slots[0].as_deref(),
+            1 => self.slots[1].as_deref(),
+            2 => self.slots[2].as_deref(),
+            _ => self.slots[3].as_deref(),
+        }
+    }
+
+    pub fn get_mut(&mut self, i: usize) -> Option<&mut crate::runtime::task::Task> {
+        if i >= self.len {
+            return None;
+        }
+        match i {
+            0 => self.slots[0].as_deref_mut(),
+            1 => self.slots[1].as_deref_mut(),
+            2 => self.slots[2].as_deref_mut(),
+            _ => self.slots[3].as_deref_mut(),
+        }
+    }
+
+    pub fn iter(&self) -> TaskTableIter<'_> {
+        TaskTableIter { table: self, next: 0 }
+    }
+
+    /// Move all tasks out (used by `ExecutionState::cleanup`).
+    pub fn drain(&mut self, _all: std::ops::RangeFull) -> std::vec::IntoIter<crate::runtime::task::Task> {
+        let mut out = Vec::with_capacity(self.len);
+        for slot in self.slots.iter_mut() {
+            if let Some(b) = slot.take() {
+                out.push(*b);
+            }
+        }
+        self.len = 0;
+        out.into_iter()
+    }
+}
+
+impl std::ops::Index<usize> for TaskTable {
+    type Output = crate::runtime::task::Task;
+    fn index(&self, i: usize) -> &Self::Output {
+        self.get(i).expect("task index out of bounds")
+    }
+}
+
+#[derive(Debug)]
+pub struct TaskTableIter<'a> {
+    table: &'a TaskTable,
+    next: usize,
+}
+
+impl<'a> Iterator for TaskTableIter<'a> {
+    type Item = &'a crate::runtime::task::Task;
+    fn next(&mut self) -> Option<Self::Item> {
+        let t = self.table.get(self.next)?;
+        self.next += 1;
+        Some(t)
+    }
+}
